@@ -65,11 +65,17 @@ type fault struct {
 	// kill-hook
 	Point string `json:"point,omitempty"`
 	Nth   int    `json:"nth,omitempty"`
+	// Others: what the faulty generator returns for its OTHER types (type-error / bad-syntax): "" nil, "ignore"
+	// ErrIgnore, "skip" ErrSkip - a sentinel from one type must not hide the failure of another
+	Others string `json:"others,omitempty"`
 }
 
 func (f fault) String() string {
 	if f.Kind == "kill-hook" {
 		return fmt.Sprintf("kill at %s #%d", f.Point, f.Nth)
+	}
+	if f.Others != "" {
+		return fmt.Sprintf("%s in %s at %d (other types: %s)", f.Kind, f.Pkg, f.At, f.Others)
 	}
 	return fmt.Sprintf("%s in %s at %d", f.Kind, f.Pkg, f.At)
 }
@@ -133,6 +139,10 @@ func faultPoints(sc scenario) []fault {
 			fs = append(fs, fault{Kind: "kill-defer", Pkg: p.Dir, At: i})
 		}
 		fs = append(fs, fault{Kind: "bad-syntax", Pkg: p.Dir, At: 0}, fault{Kind: "bad-syntax", Pkg: p.Dir, At: nt - 1})
+		for _, oth := range []string{"ignore", "skip"} {
+			fs = append(fs, fault{Kind: "bad-syntax", Pkg: p.Dir, At: 0, Others: oth}, fault{Kind: "bad-syntax", Pkg: p.Dir, At: nt - 1, Others: oth},
+				fault{Kind: "type-error", Pkg: p.Dir, At: 0, Others: oth}, fault{Kind: "type-error", Pkg: p.Dir, At: nt - 1, Others: oth})
+		}
 		fs = append(fs, fault{Kind: "skip-text-error", Pkg: p.Dir, At: 0}, fault{Kind: "wrapped-skip", Pkg: p.Dir}, fault{Kind: "wrapped-ignore", Pkg: p.Dir})
 		fs = append(fs, fault{Kind: "unwritable", Pkg: p.Dir}, fault{Kind: "panic", Pkg: p.Dir, At: nt - 1})
 		if len(p.Aliases) > 0 {
@@ -183,11 +193,11 @@ func gens(sc scenario, f fault, salt string) []specgen.GenSpec {
 		p := pathOf(f.Pkg)
 		switch f.Kind {
 		case "type-error":
-			bad.Pkg[p] = specgen.Behav{Mode: "error", At: f.At, Salt: salt, Defers: 1}
+			bad.Pkg[p] = specgen.Behav{Mode: "error", At: f.At, Salt: salt, Defers: 1, Others: f.Others}
 		case "defer-error":
 			bad.Pkg[p] = specgen.Behav{Mode: "defer-error", At: f.At, Salt: salt, Defers: 1}
 		case "bad-syntax":
-			bad.Pkg[p] = specgen.Behav{Mode: "bad-syntax", At: f.At, Salt: salt, Defers: 1}
+			bad.Pkg[p] = specgen.Behav{Mode: "bad-syntax", At: f.At, Salt: salt, Defers: 1, Others: f.Others}
 		case "alias-error":
 			bad.Pkg[p] = specgen.Behav{Mode: "alias-error", Salt: salt, Defers: 1}
 		case "wrapped-skip":
